@@ -49,6 +49,20 @@ Theorem alloc_meets_spec :
 Proof. exact verdict_some_ok. Qed.
 Print Assumptions alloc_meets_spec.
 
+(* [FULL] completeness and the model as a whole: on nested forests, when nothing is allocated (and num > 0) fewer
+   than num eligible servers exist; hence whatever the functional model returns - an allocation or nothing - is
+   judged OK by the relational specification, for every input, random draw and map order. Together with
+   alloc_meets_spec this makes the specification neither stronger nor weaker than the modelled algorithm *)
+Theorem alloc_model_meets_spec :
+  forall topo cands cands' ex0 down num o perms,
+    topo_uniform topo = true -> (forall h, In h cands -> In h (map (hd 0%N) topo)) -> NoDup cands ->
+    Permutation cands' cands ->
+    (forall e, In e ex0 -> In e (map (hd 0%N) topo)) -> topo_nested topo = true ->
+    alloc_verdict topo cands ex0 down num false
+      (allocate (build_index (map (chain_of topo) cands')) num (map (chain_of topo) ex0) ex0 down o perms) = V_OK.
+Proof. exact verdict_model_ok. Qed.
+Print Assumptions alloc_model_meets_spec.
+
 (* [REFUTED] the allocation algorithm WITHOUT the explicit failure-domain lookup for existing holders (the code
    before the repair; exchains = nil) violates the spread clause when a holder is healthy-but-full and hence
    absent from the reverse index: concrete monitor state, topology and draws for which the allocation lands in
